@@ -84,6 +84,11 @@ CHECKS = {
          "Held on the executions observed: 19 byte-level/grammar-aware mutators applied 1-4 in sequence to repository sources, trigger files and generated programs in py/ts/js/rs; nesting/length blow-ups of six kinds at four depths; 10^3-10^4 functions; unknown extensions; every registered rule runs on every offending file (lint_directory), CLI layer sampled over commands/formats/--parallel; evidence counts mutator classes, swallowed events and sibling comparisons.",
          "Trusted: hook H1 (self-tested); sibling comparison excludes cross-file rules; TypeScript DRY analysis is quadratic, so the many-functions case is capped at 300 functions for ts/js (slow is not a hang).",
          "DESIGN.md section 4 C11"),
+
+ "C12": ("runtime monitoring: location contract on every reported violation at the CLI boundary (file in run, line in range, byte column in line), an icontract postcondition on the real Orchestrator.lint_file inside the running process (evaluation-counted), and a construct-on-line oracle with generator ground truth",
+         "Held on the executions observed: nesting / literal / class / Rust-call / multi-line-construct generators and the trigger project under layout variation (0-400 leading lines, CRLF, no final newline, indentation, decorators, multi-line headers and calls) for all commands; evidence counts violations inspected, constructs checked per family and contract evaluations.",
+         "Trusted: generator facts (header lines, literal lines, call spans); columns are byte offsets; syntax-error notices and file-placement are exempt.",
+         "DESIGN.md section 4 C12"),
 }
 PENDING = {}
 props = [json.loads(l) for l in open(os.path.join(HERE, "properties.jsonl"))]
